@@ -50,7 +50,7 @@ func check(sc imps.Scenario) error {
 func TestC06(t *testing.T) {
 	r := hx.Start(t, "C06")
 	defer r.Finish(t)
-	r.Rule("rapid-generated scenarios with NewFilePath / NewFilePathName: references to the local path, to near misses (suffix/prefix added or removed, case flipped, parent, child), to 0..6 dot-imported paths and to ordinary paths, with and without PackagePrefix and other hints; non-trivial = a local path with >= 1 near miss, or >= 2 dot imports, or a dot import together with a prefix; distinct by the full scenario")
+	r.Rule("rapid-generated scenarios with NewFilePath / NewFilePathName: references to the local path, to near misses (suffix/prefix added or removed, case flipped, parent, child), to 0..6 dot-imported paths and to ordinary paths, with and without PackagePrefix and other hints; every number of dot imports from 1 to 40 declared in ascending, descending, even-then-odd and shuffled order; non-trivial = a local path with >= 1 near miss, or >= 2 dot imports, or a dot import together with a prefix; distinct by the full scenario")
 	r.Assume("a dot hint is given with ImportAlias(p, \".\") before rendering; \"C\" and the local path are never declared dot-imports")
 	profiles := []struct {
 		name string
@@ -59,6 +59,63 @@ func TestC06(t *testing.T) {
 		{"local", imps.Profile{MaxPaths: 5, LocalCtor: true, Dots: 2, Std: true, Anon: true}},
 		{"dots", imps.Profile{MaxPaths: 8, Dots: 6, Std: true, Compete: true, Anon: true, ArbPaths: true}},
 		{"localdots", imps.Profile{MaxPaths: 8, LocalCtor: true, Dots: 6, Compete: true, ReservedMix: true}},
+	}
+	// every number of dot imports from 1 to 40, declared in four orders (a library may keep them in a
+	// structure that changes shape with the count)
+	ckN := hx.Check[imps.Scenario]{Name: "dot_counts", Fn: check}
+	if !hx.Replay(r, ckN) && r.Shard == 0 {
+		for n := 1; n <= 40; n++ {
+			for order := 0; order < 4; order++ {
+				sc := imps.Scenario{}
+				sc.File.Ctor, sc.File.Args = "NewFile", []recipe.Text{"p"}
+				if (n+order)%3 == 0 {
+					sc.File.Ctor, sc.File.Args = "NewFilePathName", []recipe.Text{"dots.example/own", "p"}
+				}
+				idx := make([]int, n)
+				for i := range idx {
+					switch order {
+					case 0:
+						idx[i] = i
+					case 1:
+						idx[i] = n - 1 - i
+					case 2: // even ones first, then odd ones
+						if i < (n+1)/2 {
+							idx[i] = 2 * i
+						} else {
+							idx[i] = 2*(i-(n+1)/2) + 1
+						}
+					default: // a fixed shuffle
+						idx[i] = (i*7 + 3) % n
+						if n%7 == 0 {
+							idx[i] = (i*5 + 3) % n
+						}
+					}
+				}
+				for i := 0; i < n; i++ {
+					sc.Paths = append(sc.Paths, fmt.Sprintf("dots.example/p%02d", i))
+				}
+				sc.Paths = append(sc.Paths, "dots.example/plain", "dots.example/p00x")
+				seen := map[int]bool{}
+				for _, i := range idx {
+					if seen[i] {
+						continue
+					}
+					seen[i] = true
+					sc.File.Ops = append(sc.File.Ops, recipe.FileOp{Op: "ImportAlias", Args: []recipe.Text{recipe.Text(sc.Paths[i]), "."}})
+				}
+				if len(seen) != n {
+					continue
+				}
+				var vals []*recipe.Node
+				for i, p := range sc.Paths {
+					vals = append(vals, recipe.Qual(p, fmt.Sprintf("S%d", i)))
+				}
+				sc.File.Body = []*recipe.Node{recipe.S().C("Var").C("Id", "_").C("Op", "=").C("Index").C("Interface").C("Values", vals)}
+				hx.One(r, ckN, sc)
+				r.NonTrivial(recipe.JSON(sc))
+			}
+		}
+		r.Class("dot_counts_1_to_40")
 	}
 	for _, p := range profiles {
 		ck := hx.Check[imps.Scenario]{Name: "localdot_" + p.name, Fn: check}
